@@ -187,6 +187,14 @@ func (e *C05) mkCall(r *core.Rng, round int) *c05call {
 	switch k := r.Intn(10); {
 	case k < 4: // a file through one of its natural entries
 		fi := r.Intn(len(p.files))
+		if r.Chance(1, 3) {
+			// extra weight on JPEG inputs: they pass through three reader pools (imagemeta, jpeg, and
+			// the Exif buffer pool) by several routes (Decode, DecodeJPEG, ScanJPEG with and without
+			// a caller-owned buffered reader)
+			for try := 0; try < 8 && p.files[fi].Kind != "jpeg"; try++ {
+				fi = r.Intn(len(p.files))
+			}
+		}
 		f := p.files[fi]
 		ei := p.natural[fi][r.Intn(len(p.natural[fi]))]
 		ent := p.entries[ei]
